@@ -462,7 +462,7 @@ func randUniverse32(r *rand.Rand, maxAtoms int) (*Universe, []iset) {
 		}
 		// offsets: chunk multiples, small, negative; most will be inexpressible for random atoms;
 		// the periodic universes (concretisations) are where AddOffset is exercised in depth.
-		u.computeShifts([]int64{0, 65536, -65536, 1, -1, int64(1) << 32 - 1, -(int64(1)<<32 - 1)})
+		u.computeShifts([]int64{0, 65536, -65536, 1, -1, int64(1)<<32 - 1, -(int64(1)<<32 - 1)})
 		u.Name = fmt.Sprintf("venn/keys=%v", keys)
 		return u, gens
 	}
@@ -623,14 +623,14 @@ func profile(name string) Profile {
 }
 
 type Gen struct {
-	r     *rand.Rand
-	u     *Universe
-	p     Profile
-	ops   []string
-	cum   []int
-	total int
+	r       *rand.Rand
+	u       *Universe
+	p       Profile
+	ops     []string
+	cum     []int
+	total   int
 	singles []int
-	gens  [][]int // atom sets of the generators (for Build)
+	gens    [][]int // atom sets of the generators (for Build)
 }
 
 func newGen(r *rand.Rand, u *Universe, p Profile, genAtoms [][]int) *Gen {
